@@ -97,6 +97,15 @@ func c06ParseBody(src string, late *int) func(afterReturn *bool) string {
 	}
 }
 
+// c06FaultBody: the reader fails from rune k on (or once at rune k).
+func c06FaultBody(src string, k int, once bool) func(afterReturn *bool) string {
+	return func(afterReturn *bool) string {
+		fs := &faultScanner{rs: []rune(src), k: k, once: once}
+		_, _, err := parser.ParseCommands(nil, "t", fs)
+		return fmt.Sprintf("err=%v delivered=%v", err, fs.delivered)
+	}
+}
+
 func c06EvalBody(src string) func(afterReturn *bool) string {
 	return func(afterReturn *bool) string {
 		env := interp.NewExecEnv("sh")
@@ -248,10 +257,10 @@ func c06Judge(w *W, kind, src string, sum c06Summary) {
 
 func c06Run(w *W) {
 	installHooks()
-	np, ne := 3, 4
+	np, ne, nf := 3, 4, 2
 	maxExec := 20000
 	if w.thorough() {
-		np, ne = 4, 5
+		np, ne, nf = 4, 5, 3
 		maxExec = 200000
 	}
 	account := func(kind, src string, sum c06Summary) {
@@ -282,7 +291,39 @@ func c06Run(w *W) {
 			w.Announce("parse " + src)
 			sum := c06Explore(c06ParseBody(src, nil), -1, maxExec)
 			account("ParseCommands", src, sum)
-			c06FreeRun(w, "ParseCommands", src, sum)
+			if sum.deadlock == nil && sum.blocked == nil {
+				c06FreeRun(w, "ParseCommands", src, sum)
+			}
+			// the same input with the reader failing from rune k on (sticky) and once at rune k (transient), all schedules:
+			// whatever the interleaving, the call returns
+			if len(cur) <= nf && sum.deadlock == nil && sum.blocked == nil {
+				n := len([]rune(src))
+				for k := 0; k <= n; k++ {
+					for _, once := range []bool{false, true} {
+						w.Announce(fmt.Sprintf("parse %q fault@%d once=%v", src, k, once))
+						fsum := c06Explore(c06FaultBody(src, k, once), -1, maxExec)
+						w.Count("fault_schedules", int64(fsum.executions))
+						w.Count("evaluations", int64(fsum.executions))
+						w.Count("transitions", fsum.transitions)
+						w.Count("traces_validated_against_impl", int64(fsum.executions))
+						cc := c06Case{Kind: fmt.Sprintf("ParseCommands/fault@%d/once=%v", k, once), Src: src}
+						if fsum.blocked != nil {
+							cc.Schedule = fsum.blocked
+							w.Violation("blocked", cc, fmt.Sprintf("ParseCommands(%q) with the reader failing at rune %d (transient=%v): a goroutine is blocked in an operation the scheduler does not own", src, k, once))
+						}
+						if fsum.deadlock != nil {
+							cc.Schedule = fsum.deadlock
+							w.Violation("deadlock", cc, fmt.Sprintf("ParseCommands(%q) with the reader failing at rune %d (transient=%v): deadlock — the call never returns under schedule %v", src, k, once, fsum.deadlock))
+						}
+						for o, sch := range fsum.outcomes {
+							if strings.HasPrefix(o, "err=<nil>") && strings.Contains(o, "delivered=true") {
+								cc.Schedule = sch
+								w.Violation("fault-swallowed", cc, fmt.Sprintf("ParseCommands(%q) with the reader failing at rune %d: nil error although the fault was delivered (schedule %v)", src, k, sch))
+							}
+						}
+					}
+				}
+			}
 		}
 		if len(cur) == np {
 			return
@@ -294,6 +335,32 @@ func c06Run(w *W) {
 		}
 	}
 	rec()
+	// reader faults inside nested substitutions (three and four pieces), all schedules
+	for _, src := range []string{"$( ; a", "$( | a", "` ; a", "a $( ;", "$(a) | |", "a $( ; ; )", "a `b ;", "$( a <<E", "a | $( | b"} {
+		if !w.Mine() || w.TimeUp() {
+			continue
+		}
+		n := len([]rune(src))
+		for k := 0; k <= n; k++ {
+			for _, once := range []bool{false, true} {
+				w.Announce(fmt.Sprintf("parse %q fault@%d once=%v", src, k, once))
+				fsum := c06Explore(c06FaultBody(src, k, once), -1, maxExec)
+				w.Count("fault_schedules", int64(fsum.executions))
+				w.Count("evaluations", int64(fsum.executions))
+				w.Count("transitions", fsum.transitions)
+				w.Count("traces_validated_against_impl", int64(fsum.executions))
+				cc := c06Case{Kind: fmt.Sprintf("ParseCommands/fault@%d/once=%v", k, once), Src: src}
+				if fsum.blocked != nil {
+					cc.Schedule = fsum.blocked
+					w.Violation("blocked", cc, fmt.Sprintf("ParseCommands(%q) with the reader failing at rune %d (transient=%v): a goroutine is blocked in an operation the scheduler does not own", src, k, once))
+				}
+				if fsum.deadlock != nil {
+					cc.Schedule = fsum.deadlock
+					w.Violation("deadlock", cc, fmt.Sprintf("ParseCommands(%q) with the reader failing at rune %d (transient=%v): deadlock — the call never returns under schedule %v", src, k, once, fsum.deadlock))
+				}
+			}
+		}
+	}
 	// longer fixed inputs with an iterated preemption bound
 	for _, src := range []string{
 		"cat <<E <<F | b\nx\nE\ny\nF\n", "a $(b <<E\nx\nE\n) c\n", "if a; then b <<E\nx\nE\nfi\n", "a | | $( b ; )\nc\n", "{ a; } | | b\nc\n",
@@ -322,7 +389,9 @@ func c06Run(w *W) {
 			w.Announce("eval " + src)
 			sum := c06Explore(c06EvalBody(src), -1, maxExec)
 			account("Eval", src, sum)
-			c06FreeRun(w, "Eval", src, sum)
+			if sum.deadlock == nil && sum.blocked == nil {
+				c06FreeRun(w, "Eval", src, sum)
+			}
 		}
 		if len(cur) == ne {
 			return
@@ -509,7 +578,7 @@ func init() {
 		id:    "C06",
 		level: "model_checking",
 		rule: "stateless DFS over ALL interleavings of the hooked operations (token hand-off incl. both outcomes of an ambiguous select, cancel, here-document queue, nested lexer join, error slots, return) for every ParseCommands input of ≤ 3 (quick) / 4 (thorough) pieces over {a | ; ( ) $( $(a) ` ' ${ <<E newline #c if}, " +
-			"10 longer inputs with preemption bound ≤ 2, and every Eval input of ≤ 4 / 5 tokens over {1 08 x y = + / 0 ++ ( ) @}; non-trivial = inputs with more than one schedule; plus a supplementary free-running pass (GOMAXPROCS 1, 2, 16) whose results must be among the explored ones, and the same bodies under the race detector",
+			"10 longer inputs with preemption bound ≤ 2, every input of ≤ 2 (thorough 3) pieces additionally with the reader failing from / once at every rune index (all schedules: the call must return), and every Eval input of ≤ 4 / 5 tokens over {1 08 x y = + / 0 ++ ( ) @}; non-trivial = inputs with more than one schedule; plus a supplementary free-running pass (GOMAXPROCS 1, 2, 16) whose results must be among the explored ones, and the same bodies under the race detector",
 		assume: []string{"the controller owns every synchronisation operation between the goroutines (hooks, build tag verif); mutexes are never contended because no point lies inside a critical section",
 			"unhooked unsynchronised accesses and memory-model effects are only looked at by the supplementary -race pass; silence there is not evidence of absence",
 			"executions are capped per input (quick 20 000, thorough 200 000); a capped input makes the run non-exhaustive"},
